@@ -3,6 +3,7 @@ import YatimlModel.Model.Resolver
 import YatimlModel.Gen.LoaderResolvers
 import YatimlModel.Gen.DumperResolvers
 import YatimlModel.Driver.JsonCmd
+import YatimlModel.Driver.NodeCmd
 /-!
 The model driver: one request per line on stdin, one answer per line on stdout.
 -/
@@ -13,6 +14,7 @@ def handleSexp (line : String) : String :=
   | some (.atom "jtree" :: args) => Driver.cmdJtree args
   | some (.atom "jstep" :: args) => Driver.cmdJstep args
   | some (.atom "jstr" :: args) => Driver.cmdJstr args
+  | some (.atom "nodeops" :: args) => Driver.cmdNodeOps args
   | some _ => "bad-op"
   | none => "bad-syntax"
 
